@@ -331,6 +331,53 @@ def c19(ctx):
     ctx.validate(files)
 
 
+@check("C16", ["C16_"])
+def c16(ctx):
+    binp = ctx.harness()
+    for m in (8, 16, 32, 64):
+        ctx.tlc_design("MC_Serial", "MC_Serial_%d.cfg" % m, workers=4, timeout=300)
+    out = ctx.scr.mkdir("sna")
+    p = L.run_harness(binp, "sna-trace", out, {"VF_SEED": ctx.seed, "VF_N": 5000 if ctx.quick else 100000})
+    if p.returncode != 0:
+        raise L.MachineryError("sna-trace failed: " + (p.stdout + p.stderr)[-2000:])
+    ctx.validate([os.path.join(out, "sna-0.ndjson")], module="SerialTrace", cfg="SerialTrace.cfg")
+    recv_component(ctx, "C16")
+    reasm_component(ctx, "C16", replay=not ctx.quick)
+    files = directed_traces(ctx, "wrapdiff", 8 if ctx.quick else 16, {"VF_N": 3 if ctx.quick else 40, "VF_NBASES": 4 if ctx.quick else 10})
+    files += xfer_traces(ctx, ["wrap"], 48, 2000)
+    ctx.validate(files)
+    ctx.notes.append("the shift-invariance comparison of normalised projections is computed by the harness and enters the trace as a `diff` event; "
+                     "all 2^32 pairs of 16-bit values are NOT enumerated (laws for M<=64 + boundary grid + random sample)")
+
+
+@check("C17", ["C17_"])
+def c17(ctx):
+    binp = ctx.harness()
+    for m in ("msg", "rr", "wfq"):
+        ctx.tlc_design("MC_Sched", "MC_Sched_%s_bfs%d.cfg" % (m, 6 if ctx.quick else 7), timeout=2400, heap="16g")
+        path, nb = tlc_behaviours(ctx, "MC_Sched", "MC_Sched_%s_sim.cfg" % m, 32 if ctx.quick else 300, 26)
+        out = ctx.scr.mkdir("schedreplay")
+        p = L.run_harness(binp, "sched-replay", out, {"VF_IN": path, "VF_SCHED": m})
+        if p.returncode != 0:
+            raise L.MachineryError("sched-replay failed: " + (p.stdout + p.stderr)[-2000:])
+        res = json.load(open(os.path.join(out, "sched-replay-%s.json" % m)))
+        ctx.replayed += res["ops"]
+        ctx.evaluations += res["ops"]
+        for mm in res["mismatches"]:
+            ctx.add_violation("C17_Sched_" + mm["field"], "sched-replay %s" % m, [mm["op"], m, mm["step"]])
+        if len(ctx.samples) < 3:
+            ctx.samples.append({"sched_behaviour": open(path).readline()[:500]})
+    out = ctx.scr.mkdir("schedtrace")
+    ps = L.run_shards(binp, "sched-trace", out, 4 if ctx.quick else 16, {"VF_N": 90 if ctx.quick else 1500, "VF_SEED": ctx.seed})
+    for p in ps:
+        if p.returncode != 0:
+            raise L.MachineryError("sched-trace failed: " + (p.stdout + p.stderr)[-2000:])
+    ctx.validate(sorted(glob.glob(os.path.join(out, "sched-*.ndjson"))), module="SchedTrace", cfg="SchedTrace.cfg")
+    ctx.distinct.add(("sched-component",))
+    files = xfer_traces(ctx, ["il", "il", "basic", "pr", "lossy"], 120, 3000)
+    ctx.validate(files)
+
+
 @check("C10", ["C10_"])
 def c10(ctx):
     files = xfer_traces(ctx, ["zwin", "lossy", "basic", "tiny", "big", "il"], 160, 4000)
